@@ -9,6 +9,7 @@ a second run into the same output directory leaves exactly what a single run pro
 """
 from __future__ import annotations
 
+import os
 import re
 
 from .. import engine, runner, workload
@@ -27,9 +28,10 @@ ERROR_KINDS = {
 
 
 def _ops_history(r, n_modules_hint: int = 6) -> list[dict]:  # noqa: ANN001
+    first_flag = r.random() < 0.5
     ops: list[dict] = [
-        {"op": "GEN", "flag": False, "model": "fresh"},
-        {"op": "GEN", "flag": True, "model": "fresh"},
+        {"op": "GEN", "flag": first_flag, "model": "fresh"},
+        {"op": "GEN", "flag": not first_flag, "model": "fresh"},
         {"op": "GEN_SEQ", "flag": False, "model": "fresh", "order_seed": r.getrandbits(32), "prefix": 1.0},
     ]
     for _ in range(r.randint(3, 8)):
@@ -187,6 +189,39 @@ def judge_inherit_groups(pkg: dict, gen_texts: list[str], flag: bool) -> list[di
     return out
 
 
+def judge_against_fresh_process(case: dict, comp: dict, ref: dict) -> list[dict]:
+    """Independent reference for 'does not depend on earlier generations': the texts of every generation made with the
+    run's own naming flag - whatever was generated before it in the component process - must equal the stub files
+    that the CLI wrote in a fresh process (same package, options and schedule)."""
+    out: list[dict] = []
+    nc = bool(case["options"].get("nc"))
+    files = engine.output_files(ref["out_tree"])
+    texts = comp.get("texts", {})
+    ops_spec = case["histories"][0][0]["job_extra"]["ops"]
+    for rec, spec in zip(comp.get("ops", []), ops_spec, strict=False):
+        if rec.get("op") != "GEN" or bool(spec.get("flag")) != nc or "gen" not in rec:
+            continue
+        by_path: dict[str, list[str]] = {}
+        for d_rel, name, sha, is_pkg in rec["gen"]:
+            d = os.path.dirname(d_rel) if is_pkg else d_rel
+            path = os.path.normpath(os.path.join(d, f"{name.lstrip('_')}.sdsstub"))
+            by_path.setdefault(path, []).append(sha)
+        for path, shas in sorted(by_path.items()):
+            if len(shas) != 1 or path not in files or shas[0] not in texts:
+                continue  # colliding paths (see K-C10-1) or files the run did not write are not comparable
+            want = files[path]["data"].decode("utf-8", "replace")
+            got = texts[shas[0]]
+            if got != want:
+                import difflib
+
+                out.append({"class": "generation-differs-from-fresh-process", "history": 0, "detail": {
+                    "path": path, "k": rec["k"], "op": spec, "earlier_ops": [f"{o['op']}({'nc' if o.get('flag') else 'py'})" for o in ops_spec[: rec["k"]]],
+                    "diff": list(difflib.unified_diff(want.splitlines(), got.splitlines(), "fresh-process", "after-earlier-generations", lineterm="", n=1))[:16],
+                    "fingerprint": {"gkey": "fresh-process"}}})
+                return out
+    return out
+
+
 def judge_component(case: dict, res: dict) -> tuple[list[dict], dict]:
     viols: list[dict] = []
     stats = {"ops": 0, "gens": 0, "second_renderings": 0, "inherit_members_compared": 0}
@@ -285,6 +320,7 @@ def run_case(case: dict, parallel: int = 1) -> dict:
         return verdict
     viols, cstats = judge_component(case, comp)
     verdict["violations"] += viols
+    verdict["violations"] += judge_against_fresh_process(case, comp, ref)
     if not case.get("planned"):
         case["histories"] = case["histories"][:2] + plan_e_histories(case, ref)
         case["planned"] = True
